@@ -7,7 +7,8 @@ import subprocess
 VERIF = os.path.dirname(os.path.dirname(os.path.abspath(__file__)))
 
 ENGINE_NOTE = ("Trusted: TLC 1.8.0 + CommunityModules Json; the Go projection harness/cmd/vdrive/proj_*.go; the operation alphabet of "
-               "DESIGN.md 2.1. Exhaustive only within the stated small scopes; beyond them seeded random exploration.")
+               "DESIGN.md 2.1. Exhaustive only within the stated small scopes; beyond them seeded random exploration. The engine checks also validate the traces of the "
+               "repository's own scenario tests (testcases/ of the working tree, every game wrapped by harness/vrec; DESIGN.md 3.5).")
 
 CHECKS = {
     "C01": ("spec/HoldemProps.tla C01_* evaluated by TLC on every recorded step of the real engine",
@@ -18,7 +19,7 @@ CHECKS = {
             "Showdown payout as input/output predicates (folded wins nothing and gets uncalled chips back; a player collects an equal "
             "share, within one chip, of exactly the side pots he is among the best of; zero sum). MCPots checks the precise model "
             "Pots/Settlement for all vectors in scope; the real packages are fed every vector of the scope in every insertion order "
-            "(<= 4 players) plus seeded realistic vectors; every GameClosed state of real play is judged by the same predicates."),
+            "(<= 4 players, the settlement's players registered in a permuted order) plus seeded realistic vectors; every GameClosed state of real play is judged by the same predicates."),
     "C03": ("spec/RankTrace.tla: the evaluator's complete function table (all hands, both decks, both tables) against HandRank.RefKey",
             "Exhaustive over inputs: every five-card hand of both decks under both ranking tables is evaluated by the real "
             "combination.CalculatePower (several card orders), reduced to classes; TLC checks one result per class, the category name and "
@@ -32,7 +33,7 @@ CHECKS = {
             "maintained by the trace specification; all interleavings in the model-checking scope, real traces validated."),
     "C06": ("spec/HoldemProps.tla C06_* + liveness Terminates under WF in MCHoldem",
             "Single wait point and a single indication (no seat is offered an action while a table operation is awaited; during a betting round the player to act is offered something), expected step succeeds, street order, result iff closed, closed is final; termination as liveness on the "
-            "model and as bounded non-progress on every real trace; Start defects singly and in pairs."),
+            "model and as bounded non-progress on every real trace; Start defects singly and in pairs; layouts without a big-blind seat; a call that never returns is recorded by a watchdog as the call's error."),
     "C15": ("spec/ViewProps.tla FailedView on every recorded state x every seat + observer, with a generic card-symbol leak scan",
             "Deck and burned cards never in a view; other players' hole cards and evaluations hidden before the close, folded ones after it; the "
             "viewer's own seat and all public fields identical to the full state; every card symbol found anywhere in the view's JSON is public. "
@@ -58,7 +59,7 @@ CHECKS = {
             "Every live player in exactly one place (queue or one table), no duplicates, the regulator's totals equal the real numbers wherever "
             "the instruction has been carried out, refusals leave everything unchanged; MCReg checks the precise model + obedient tables for all "
             "histories of small tournaments; the real regulator's own reachable graph is enumerated in the same small scopes (states rebuilt by replay) and every transition validated; "
-            "plus random tournaments, a settings sweep and TLC-generated scripts; unknown-table calls name fresh ids and tables that were told to break."),
+            "plus random tournaments, a settings sweep and TLC-generated scripts; unknown-table calls name fresh ids and tables that were told to break; stray ReleasePlayers calls in every phase."),
     "C10": ("spec/HoldemProps.tla C10_* with HandRank.Admissible/RefKey on every street of real hands (constructed and random decks)",
             "Each published hand is five own cards, admissible (exactly the required hole cards), unbeaten by any admissible selection under "
             "RefKey, with category/strength equal to the evaluator re-run on those cards, stable between streets, and the showdown pays by the "
